@@ -56,7 +56,7 @@ def bounds_roles(repo, ctx):
     lo = hi = None
     lo_node = hi_node = None
     for s in solve.body:
-        if isinstance(s, ast.While):
+        if isinstance(s, ast.While) and not (isinstance(s.test, ast.Constant) and not s.test.value):
             break
         if isinstance(s, ast.Assign) and len(s.targets) == 1:
             c = U.chain(s.targets[0])
@@ -155,7 +155,7 @@ def r51_clamp(repo, ctx, lo, hi):
 def r52_loop(repo, ctx, lo, hi, solve, names, init_nodes):
     q = 'DESolver.solve'
     t0, tf = names
-    loops = [s for s in solve.body if isinstance(s, ast.While)]
+    loops = [s for s in solve.body if isinstance(s, ast.While) and not (isinstance(s.test, ast.Constant) and not s.test.value)]
     if len(loops) != 1:
         ctx.undecided('R5.2', SOLVER, q, solve, f'expected exactly one top-level while loop in solve, found {len(loops)}')
         return
